@@ -6,15 +6,27 @@
    no line holds another of str.splitlines' break characters. *)
 From Coq Require Import ZArith List Bool Lia.
 From Mistletoe Require Import Base.Sx Base.PyStr Base.PyText Gen.GenTables Gen.GenConfig Gen.GenEscapes Model.Fillers Model.Tree Model.CoreTokens Model.Block Model.Build
-     Model.DocLines Model.HtmlRenderer Model.Parser Proofs.PlainProse Proofs.Prose Proofs.ProseLines Proofs.ListLaw Proofs.FenceLaw Spec.Fragment Proofs.InertProse Proofs.FragmentP Proofs.FragmentDoc Proofs.EmphSimple Proofs.EmphSentence Proofs.RefSentence Proofs.LinkSentence Proofs.MixPhrases Proofs.CodeSpan Proofs.HardBreaks Proofs.BreakBlocks Proofs.StrikeSentence Proofs.EscSentence Proofs.ImageSentence Proofs.LeafSpans Proofs.OneInline.
+     Model.DocLines Model.HtmlRenderer Model.Parser Proofs.PlainProse Proofs.Prose Proofs.ProseLines Proofs.ListLaw Proofs.FenceLaw Spec.Fragment Proofs.InertProse Proofs.FragmentP Proofs.FragmentDoc Proofs.EmphSimple Proofs.EmphSentence Proofs.RefSentence Proofs.LinkSentence Proofs.MixPhrases Proofs.CodeSpan Proofs.HardBreaks Proofs.BreakBlocks Proofs.StrikeSentence Proofs.EscSentence Proofs.ImageSentence Proofs.LeafSpans Proofs.OneInline Proofs.EmphPhrases Proofs.NestedEmph.
 Import ListNotations.
 Local Open Scope Z_scope.
 
 Definition is_fpara (t : ftree) : bool := match t with FPara _ _ _ | FEm _ _ _ _ _ _ | FLink _ _ _ _ _ | FSent _ _ _ | FTick _ _ _ _ _ | FBrk _ _ _ _ | FOne _ _ _ _ => true | _ => false end.
 
+(* the HTML inside a nested emphasis: the text, the inner phrases with the text after each *)
+Fixpoint nest_html (o : hopts) (g : str) (ps : list phrase) (zz : str) : str :=
+  match ps with
+  | [] => escape_html_text o (g ++ zz)
+  | (ch, k, w, t) :: r =>
+    let tag := if Z.of_nat (S k) =? 2 then $"strong" else $"em" in
+    escape_html_text o g ++ $"<" ++ tag ++ $">" ++ escape_html_text o w ++ $"</" ++ tag ++ $">" ++ nest_html o t r zz
+  end.
+
 (* the HTML of the inline element of a leaf FOne *)
 Definition inl_html (o : hopts) (x : inl) : str :=
   match x with
+  | INest ch k h ps z =>
+    let tag := if Z.of_nat (S k) =? 2 then $"strong" else $"em" in
+    $"<" ++ tag ++ $">" ++ nest_html o h ps z ++ $"</" ++ tag ++ $">"
   | IStrike w => $"<del>" ++ escape_html_text o w ++ $"</del>"
   | IEsc c => escape_html_text o [c]
   | IImg w d => $"<img src=" ++ [34] ++ fill o html_image_src d ++ [34] ++ $" alt=" ++ [34] ++ fill0 html_plain_leaf w ++ [34] ++ $" />"
@@ -321,6 +333,16 @@ Proof.
     rewrite !serialize_app. rewrite render_brk_toks by discriminate. cbn. rewrite ?app_nil_r. reflexivity.
 Qed.
 
+Lemma render_nest_toks o sup : forall ps g zz, serialize (flat_map (render o sup false) (nest_toks g ps zz)) = nest_html o g ps zz.
+Proof.
+  induction ps as [|[[[ch k] w] t] r IH]; intros g zz.
+  - cbn [nest_toks nest_html]. apply ser_raw_if.
+  - cbn [nest_toks nest_html]. rewrite flat_map_app, serialize_app, ser_raw_if. f_equal.
+    cbn [flat_map]. rewrite serialize_app, IH.
+    destruct (Z.of_nat (S k) =? 2); cbn [render flat_map app]; unfold wrap; change (fill o GenEscapes.html_raw_text w) with (escape_html_text o w);
+      set (W := escape_html_text o w); set (N := nest_html o t r zz); unfold serialize; cbn [flat_map ser_item app ser_attrs]; rewrite ?app_nil_r, <- ?app_assoc; reflexivity.
+Qed.
+
 Lemma html_one o sup c0 pre x post :
   serialize (render o sup false (tok_of false (FOne c0 pre x post))) = html_f o sup (FOne c0 pre x post).
 Proof.
@@ -332,10 +354,14 @@ Proof.
     fold (serialize (flat_map (render o sup false) (raw_if post))). rewrite ser_raw_if.
     change (fill o GenEscapes.html_raw_text (c0 :: pre)) with (escape_html_text o (c0 :: pre)).
     set (P := escape_html_text o (c0 :: pre)). set (Q := escape_html_text o post).
-    destruct x as [w|c|w d]; cbn [inl_tok inl_html flat_map render]; unfold image_of, wrap; cbn [flat_map render ser_item app l_target l_title title_attr to_plain ser_attrs fst snd].
+    destruct x as [w|c|w d|ch k h ps z]; cbn [inl_tok inl_html flat_map render]; unfold image_of, wrap; cbn [flat_map render ser_item app l_target l_title title_attr to_plain ser_attrs fst snd].
     - change (fill o GenEscapes.html_raw_text w) with (escape_html_text o w). set (W := escape_html_text o w). cbn [app]. rewrite ?app_nil_r, <- ?app_assoc. reflexivity.
     - change (fill o GenEscapes.html_raw_text [c]) with (escape_html_text o [c]). set (W := escape_html_text o [c]). rewrite ?app_nil_r, <- ?app_assoc. reflexivity.
-    - set (A := fill0 html_plain_leaf w). set (D := fill o html_image_src d). cbn [app]. rewrite ?app_nil_r. repeat (rewrite <- ?app_assoc; cbn [app]). reflexivity. }
+    - set (A := fill0 html_plain_leaf w). set (D := fill o html_image_src d). cbn [app]. rewrite ?app_nil_r. repeat (rewrite <- ?app_assoc; cbn [app]). reflexivity.
+    - unfold nest_of. cbv zeta.
+      assert (En : flat_map ser_item (flat_map (render o sup false) (nest_toks h ps z)) = nest_html o h ps z) by (apply (render_nest_toks o sup ps h z)).
+      destruct (Z.of_nat (S k) =? 2); cbn [render flat_map app]; unfold wrap; cbn [flat_map ser_item app ser_attrs]; rewrite ?app_nil_r, !flat_map_app, En;
+        set (N := nest_html o h ps z); cbn [flat_map ser_item app]; rewrite ?app_nil_r, <- ?app_assoc; reflexivity. }
   destruct sup.
   - cbn [render]. cbv iota. exact E.
   - cbn [render]. cbv iota. unfold wrap.
